@@ -413,6 +413,9 @@ func V1ProofOK(n *consensus.Network, child uint64, fc types.FileContract, leafIn
 	}
 	root := leafHash64(leaf)
 	h := bits.Len64(leafIndex ^ lastLeafIndex(fc.Filesize))
+	if fc.Filesize > 0 && len(sp.Proof) < h {
+		return false // too short to be a proof of this leaf
+	}
 	for i, p := range sp.Proof {
 		if i < 64 && leafIndex&(1<<uint(i)) != 0 || i >= h {
 			root = nodeHash(p, root)
